@@ -54,7 +54,7 @@ pub enum Verdict<T> {
     Hung,
 }
 
-fn my_tid() -> u64 {
+pub fn my_tid() -> u64 {
     // "/proc/thread-self" -> "<pid>/task/<tid>"
     std::fs::read_link("/proc/thread-self")
         .ok()
@@ -63,11 +63,28 @@ fn my_tid() -> u64 {
 }
 
 /// scheduler state of a thread of this process: `R` running/runnable, `S` interruptible sleep, `D` disk sleep, …
-fn thread_state(tid: u64) -> Option<char> {
+pub fn thread_state(tid: u64) -> Option<char> {
     let stat = std::fs::read_to_string(format!("/proc/self/task/{}/stat", tid)).ok()?;
     // "<tid> (<comm>) <state> …" — comm may contain anything, so look for the LAST ')'
     let rest = &stat[stat.rfind(')')? + 1..];
     rest.trim_start().chars().next()
+}
+
+/// Run `f` on the CURRENT (guarded) thread while declaring that it may legitimately sleep for a moment (the lock probe
+/// of the channel windows, batcher.rs `lock_is_free`): being blocked in the kernel meanwhile proves nothing.
+pub fn expected_wait<R>(f: impl FnOnce() -> R) -> R {
+    let me = CURRENT.with(|c| c.borrow().clone());
+    let was = me.as_ref().map(|t| t.nested_wait.swap(true, Ordering::SeqCst));
+    struct Restore(Option<Arc<Task>>, Option<bool>);
+    impl Drop for Restore {
+        fn drop(&mut self) {
+            if let (Some(t), Some(w)) = (&self.0, self.1) {
+                t.nested_wait.store(w, Ordering::SeqCst);
+            }
+        }
+    }
+    let _r = Restore(me, was);
+    f()
 }
 
 /// Run `f` on a fresh thread. `Done(v)`: it returned `v`; `Panicked`: it panicked; `Hung`: it is dead-locked (the
